@@ -154,6 +154,10 @@ theorem walk_mem_fp (h : Heap) (id : Nat) : ∀ (loc : List Name) (root : Val) (
         | half n => simp [UnfJ] at hu
         | str s => simp [UnfJ] at hu
 
+def nameStepV : Name → Step Val
+  | .key k => .key k
+  | .idx i => .idx i
+
 /-- **`vertex.set` on the tree**: when the parent match sits at `pm.loc` of a store without
 aliasing and the assigned value is fresh (shares no object with the document), the document
 afterwards unfolds to the old tree with `jv` assigned under the last name inside the node at
@@ -163,8 +167,8 @@ theorem vertexSet_refold (h h' : Heap) (s : Step Val) (pm m : MNode Val) (v : Va
     (hu : UnfJ h j root) (hsep : (fpJ h j root).Nodup)
     (hv : UnfJ h jv v) (hvn : (fpJ h jv v).Nodup) (hfresh : ∀ x ∈ fpJ h jv v, x ∉ fpJ h j root)
     (hloc : walk (hview h) root pm.loc = some pm.data) :
-    ∃ nm j', m = .child pm nm v ∧ J.setAt j pm.loc nm jv = some j' ∧ UnfJ h' j' root ∧ (fpJ h' j' root).Nodup ∧
-      ∀ x ∈ fpJ h' j' root, x ∈ fpJ h j root ∨ x ∈ fpJ h jv v := by
+    ∃ nm j', s = nameStepV nm ∧ m = .child pm nm v ∧ J.setAt j pm.loc nm jv = some j' ∧ UnfJ h' j' root ∧
+      (fpJ h' j' root).Nodup ∧ ∀ x ∈ fpJ h' j' root, x ∈ fpJ h j root ∨ x ∈ fpJ h jv v := by
   unfold vertexSet at hs
   split at hs
   · -- key on a dict
@@ -207,7 +211,7 @@ theorem vertexSet_refold (h h' : Heap) (s : Step Val) (pm m : MNode Val) (v : Va
             simp only [List.map_append, List.map_cons, List.map_nil, u2, List.nodup_append]
             exact ⟨n1, by rw [r2]; exact hvn, fun a ha b hb e => n2 b (by rw [← r2]; exact hb) (e ▸ ha)⟩)
       obtain ⟨_, j', g1, g2, g3, g4⟩ := refold h id _ _ _ hb pm.loc root j hu hsep hfresh hloc
-      exact ⟨.key k, j', rfl, g1, g2, g3, g4⟩
+      exact ⟨.key k, j', rfl, rfl, g1, g2, g3, g4⟩
     · simp at hs
   · -- index on a list
     rename_i i id hd
@@ -238,7 +242,7 @@ theorem vertexSet_refold (h h' : Heap) (s : Step Val) (pm m : MNode Val) (v : Va
             · intro n1 n2
               exact u3 n1 (by rw [r2]; exact hvn) (by rw [r2]; exact n2))
           obtain ⟨_, j', g1, g2, g3, g4⟩ := refold h id _ _ _ hb pm.loc root j hu hsep hfresh hloc
-          exact ⟨.idx i, j', rfl, g1, g2, g3, g4⟩
+          exact ⟨.idx i, j', rfl, rfl, g1, g2, g3, g4⟩
       · -- IndexError: append iff the index equals the length
         rename_i hls
         split at hs
@@ -264,14 +268,10 @@ theorem vertexSet_refold (h h' : Heap) (s : Step Val) (pm m : MNode Val) (v : Va
               simp only [u2, List.nodup_append]
               exact ⟨n1, by rw [r2]; exact hvn, fun a ha b hb e => n2 b (by rw [← r2]; exact hb) (e ▸ ha)⟩)
           obtain ⟨_, j', g1, g2, g3, g4⟩ := refold h id _ _ _ hb pm.loc root j hu hsep hfresh hloc
-          exact ⟨.idx i, j', rfl, g1, g2, g3, g4⟩
+          exact ⟨.idx i, j', rfl, rfl, g1, g2, g3, g4⟩
         · simp at hs
     · simp at hs
   · simp at hs
-
-def nameStepV : Name → Step Val
-  | .key k => .key k
-  | .idx i => .idx i
 
 /-- **`vertex.pop` on the tree**: the document afterwards unfolds to the old tree without the
 entry, at the location of the match's parent; nothing else changed, no aliasing appears -/
